@@ -10,11 +10,15 @@ class InjectedAttributeError(AttributeError):
     pass
 
 
-# ordinary exceptions only: not dagrt's control exceptions, StopIteration or GeneratorExit
+class InjectedBaseFault(BaseException):
+    """Not a subclass of Exception (like KeyboardInterrupt during a long right-hand side)."""
+
+
+# not dagrt's control exceptions, StopIteration or GeneratorExit
 FAULT_CLASSES = [InjectedFault, ValueError, ZeroDivisionError, KeyError, FloatingPointError,
                  AttributeError, TypeError, IndexError, RuntimeError, NotImplementedError, AssertionError,
                  OSError, NameError, ArithmeticError, LookupError, InjectedAttributeError, UnboundLocalError,
-                 OverflowError, BufferError]
+                 OverflowError, BufferError, InjectedBaseFault, KeyboardInterrupt]
 
 
 class FuncTable:
